@@ -8,7 +8,7 @@
    Statements only; proofs in Proofs/AffineFl.v.                                                                                  *)
 From Coq Require Import ZArith Bool Reals.
 From Flocq Require Import Core.Core IEEE754.BinarySingleNaN.
-From RD Require Import Proofs.AffineFl.
+From RD Require Import Proofs.AffineFl Gen.FlProg.
 Open Scope R_scope.
 
 Theorem C07_from_zscore_fl_def : forall prec emax (Hp : Prec_gt_0 prec) (Hpe : Prec_lt_emax prec emax) (mean sd z : binary_float prec emax),
@@ -73,6 +73,16 @@ Theorem C07_affine_sub_fl_error : forall prec emax (Hp : Prec_gt_0 prec) (Hpe : 
     u prec * Rabs (B2R loc - B2R scale * B2R g) + u prec * (2 + u prec) * Rabs (B2R scale * B2R g) + (1 + u prec) * eta prec emax.
 Proof. exact affine_sub_fl_error. Qed.
 
+(* ---- tie to the source: Gen/FlProg.v is regenerated from /repo on every run by tools/flprog.py; the programs it reads off
+   normal.rs (from_zscore), cauchy.rs, frechet.rs and gumbel.rs (the trailing expression of sample; libm calls opaque) ARE the
+   hand-written programs the theorems above speak about. *)
+Theorem C07_fl_source : forall prec emax (Hp : Prec_gt_0 prec) (Hpe : Prec_lt_emax prec emax) (loc scale z : binary_float prec emax),
+  src_normal_from_zscore prec emax Hp Hpe loc scale z = from_zscore_fl prec emax Hp Hpe loc scale z /\
+  src_cauchy_sample prec emax Hp Hpe loc scale z = from_zscore_fl prec emax Hp Hpe loc scale z /\
+  src_frechet_sample prec emax Hp Hpe loc scale z = from_zscore_fl prec emax Hp Hpe loc scale z /\
+  src_gumbel_sample prec emax Hp Hpe loc scale z = affine_sub_fl prec emax Hp Hpe loc scale z.
+Proof. intros. repeat split; reflexivity. Qed.
+
 Definition u_def_check : forall prec, u prec = bpow radix2 (- prec) := fun _ => eq_refl.
 Definition eta_def_check : forall prec emax, eta prec emax = / 2 * bpow radix2 (3 - emax - prec) := fun _ _ => eq_refl.
 Definition rnd_def_check : forall prec emax x, rnd prec emax x = round radix2 (FLT_exp (3 - emax - prec) prec) ZnearestE x := fun _ _ _ => eq_refl.
@@ -87,3 +97,4 @@ Print Assumptions C07_from_zscore_fl_sd_zero.
 Print Assumptions C07_affine_sub_fl_def.
 Print Assumptions C07_affine_sub_fl_value.
 Print Assumptions C07_affine_sub_fl_error.
+Print Assumptions C07_fl_source.
